@@ -191,8 +191,10 @@ fn cut<'a>(site: &N<'a>, rng: &mut Rng, want_tail: bool) -> Option<(String, Vec<
     let first = named[k].clone();
     let last = named[named.len() - 1].clone();
     let run: Vec<N> = par.children().filter(|c| c.range().start >= first.range().start && c.range().end <= last.range().end).collect();
-    spans.push((first.range().start, last.range().end, "$$$W".to_string()));
-    tail = Some(("W".to_string(), run));
+    // the name of the run is spelled in turn with letters only, with a digit, with an underscore and a digit
+    let tname = *rng.pick(&["W", "W2", "REST_1", "W"]);
+    spans.push((first.range().start, last.range().end, format!("$$${tname}")));
+    tail = Some((tname.to_string(), run));
   }
   let n_holes = 1 + rng.below(3);
   for i in 0..n_holes {
